@@ -201,7 +201,7 @@ def context_for(ev, sp, rng):
     return pro, (mcv, pl, ev["jumbo"]), epi, vals
 
 
-def base_trace(wd, events, require_all=True, phy=(0, 1)):
+def base_trace(wd, events, require_all=True, phy=(0, 1), others_require=True):
     """Thread 10 runs `events` between OHx and OHe; thread 11 (same process) and
     threads 12 and 13 (two more processes of the loom) are alive."""
     req = {n: v for (n, v) in histgen.REQUIRE.values()} if require_all else None
@@ -216,10 +216,12 @@ def base_trace(wd, events, require_all=True, phy=(0, 1)):
     h11 = [(101, "OHx", obs.i32(-1, 11, 0), False), (t + 5, "OHe", b"", False)]
     shutil.rmtree(wd, ignore_errors=True)
     obs.write_stream(wd, "L", 1, 10, obs.thread_meta(10, 1, "L", cpus=[(0, phy[0]), (1, phy[1])], require=req, extra=extra), h10)
-    obs.write_stream(wd, "L", 1, 11, obs.thread_meta(11, 1, "L", require=req, extra=extra), h11)
+    # a model is enabled when some thread requires it: the other threads may well require the base model only
+    oreq = req if others_require else None
+    obs.write_stream(wd, "L", 1, 11, obs.thread_meta(11, 1, "L", require=oreq, extra=extra), h11)
     for pid_, tid_ in ((2, 12), (3, 13)):
         h = [(101, "OHx", obs.i32(-1, tid_, 0), False), (t + 5 + tid_, "OHe", b"", False)]
-        obs.write_stream(wd, "L", pid_, tid_, obs.thread_meta(tid_, pid_, "L", app_id=pid_, require=req, extra=extra), h)
+        obs.write_stream(wd, "L", pid_, tid_, obs.thread_meta(tid_, pid_, "L", app_id=pid_, require=oreq, extra=extra), h)
     os.makedirs(os.path.join(wd, "cfg"), exist_ok=True)
 
 
@@ -278,7 +280,7 @@ def _run_listed_once(chk, build, ev, sp, mcv, draw, res, state=None):
     try:
         # physical CPU ids need not equal the logical indices
         phy = [(0, 1), (4, 5), (1, 0), (7, 2)][(draw + len(pro)) % 4] if not state else (0, 1)
-        base_trace(wd, pro + [e] + epi, phy=phy)
+        base_trace(wd, pro + [e] + epi, phy=phy, others_require=(draw % 3 != 2))
         r = emu.emu(build, wd)
         res["judged"] += 1
         if r.sig or r.rc not in (0, 1):
